@@ -162,6 +162,11 @@ STYLES = {
     "SF.read(reduce)":   dict(slices=False, post="reduce"),
     "sfile.read(split)": dict(slices=False, post="split"),
     "sfile.read(reduce)": dict(slices=False, post="reduce"),
+    # the same column selection given through the fields= keyword (a synonym of columns=)
+    "SF.read(fields)":           dict(slices=False),
+    "SF.read(fields,reduce)":    dict(slices=False, post="reduce"),
+    "SF.read(fields,split)":     dict(slices=False, post="split"),
+    "sfile.read(fields,reduce)": dict(slices=False, post="reduce"),
 }
 
 
@@ -198,6 +203,14 @@ def main(ctx):
             return R[cols].read(rows=rows)
         if style == "SF.read":
             return sf.read(rows=rows, columns=cols)
+        if style == "SF.read(fields)":
+            return sf.read(rows=rows, fields=cols)
+        if style == "SF.read(fields,reduce)":
+            return sf.read(rows=rows, fields=cols, reduce=True)
+        if style == "SF.read(fields,split)":
+            return sf.read(rows=rows, fields=cols, split=True)
+        if style == "sfile.read(fields,reduce)":
+            return sfile.read(fn, rows=rows, fields=cols, reduce=True)
         if style == "SF[]":
             if cols is None:
                 return sf[rows]
@@ -340,6 +353,84 @@ def main(ctx):
 
     rlunits = [("le", 8, delim, style) for delim in (None, ",") for style in ("R.read", "SF[]", "sfile.read(split)")]
     ctx.lattice("row-lists-of-8", rlunits, one, expand=expand_rl, bounds=dict(rows=8, list_lengths=[4, 5]))
+
+    # column names that differ only in case ('z' / 'Z', 'e1' / 'E1'): each name is its own column
+    CASE_DT = [("z", "<i4"), ("Z", "<f8"), ("e1", "S3"), ("E1", "<i2")]
+
+    def one_case(case, rec):
+        delim, style, cols, rows = case
+        key = ("case", delim, rec.tmp)
+        if key not in files:
+            fnc = os.path.join(rec.tmp, "c02_case_%s.rec" % ("bin" if delim is None else ord(delim)))
+            tc = np.zeros(4, dtype=CASE_DT)
+            tc["z"] = [1, 2, 3, 4]
+            tc["Z"] = [10.5, 20.5, 30.5, 40.5]
+            tc["e1"] = [b"a", b"b", b"c", b"d"]
+            tc["E1"] = [-1, -2, -3, -4]
+            sfile.write(fnc, tc, delim=delim)
+            files[key] = (fnc, tc)
+        fnc, tc = files[key]
+        sub = tc if rows is None else tc[list(rows)]
+        if isinstance(cols, str):
+            exp = sub[cols]
+        else:
+            exp = T.extract_columns(sub, [c for c in tc.dtype.names if c in cols])
+        if STYLES[style].get("post") == "split":
+            exp = tuple(np.ascontiguousarray(exp[c]) for c in exp.dtype.names) if not isinstance(cols, str) else (exp,)
+        try:
+            with sfile.SFile(fnc) as sf:
+                got = run_style(style, fnc, sf, None if rows is None else list(rows), cols if isinstance(cols, str) else list(cols))
+        except Exception as e:
+            return rec.fail(case, "raised %s: %s" % (type(e).__name__, str(e)[:150]))
+        m = compare(got, exp)
+        if m:
+            return rec.fail(case, "columns %r of a table with fields z, Z, e1, E1: %s; got %r" % (cols, m, got))
+        rec.ok(case, outcome="case-names", nontrivial=True)
+
+    cnames = [d[0] for d in CASE_DT]
+    csels = list(cnames) + [c for k in (2, 3) for c in itertools.permutations(cnames, k)]
+    caseunits = [(delim, style, cs, rs) for delim in (None, ",") for style in ("R.read", "SF[]", "sfile.read", "R.read(split)")
+                 for cs in csels for rs in (None, (1, 3)) if not (isinstance(cs, str) and style == "R.read(split)")]
+    ctx.lattice("case-differing-names", caseunits, one_case, bounds=dict(fields=cnames, selections=len(csels)))
+
+    # a large binary table (70000 rows of 16 bytes = 1.07 MiB): slices, row lists and column subsets that start, end
+    # or step across the 64 KiB / 1 MiB marks - readers that fetch rows in blocks fail at particular boundaries only
+    def one_big(case, rec):
+        n, style, rsel, csel = case
+        key = ("big", n, rec.tmp)
+        if key not in files:
+            fnb = os.path.join(rec.tmp, "c02_big_%d.rec" % n)
+            tb = np.zeros(n, dtype=[("a", "<i8"), ("x", "<f8")])
+            tb["a"] = np.arange(n) * 3 + 1
+            tb["x"] = np.arange(n) / 8.0 - 5.0
+            sfile.write(fnb, tb)
+            files[key] = (fnb, tb)
+        fnb, tb = files[key]
+        rows = build_rows(rsel)
+        cols = build_cols(csel)
+        ex = expected(tb, rsel, csel, STYLES[style].get("post"))
+        if ex[0] != "value":
+            return
+        exp = ex[1]
+        try:
+            with sfile.SFile(fnb) as sf:
+                got = run_style(style, fnb, sf, rows, cols)
+        except Exception as e:
+            return rec.fail(case, "raised %s: %s" % (type(e).__name__, str(e)[:150]))
+        m = compare(got, exp)
+        if m:
+            return rec.fail(case, "%s (large table, %d rows)" % (m, n))
+        rec.ok(case, outcome="big:%s" % rsel[0] if rsel else "big:all", nontrivial=True)
+
+    NB = 70000
+    marks = [4096, 65536, 65537, 131072 // 2 - 1]
+    bsel = [None, ("slice", 0, 65536, None), ("slice", 1, 65537, None), ("slice", 4095, 4097, None), ("slice", 65535, None, None),
+            ("slice", 0, None, 4096), ("slice", 3, None, 65536), ("slice", NB - 1, None, None), ("slice", 0, NB, 7),
+            ("list", (0, 4095, 4096, 65535, 65536, NB - 1)), ("list", (65536,)), ("i8", tuple(range(65530, 65545))),
+            ("scalar", 65536), ("scalar", -1)]
+    bigunits = [(NB, style, rs, cs) for style in ("R[]", "SF[]", "sfile.read") for rs in bsel
+                for cs in (None, ("scalar", "x"), ("list", ("a",))) if not (rs is not None and rs[0] == "slice" and style == "sfile.read")]
+    ctx.lattice("large-table-reads", bigunits, one_big, bounds=dict(rows=NB, row_bytes=16, selections=len(bsel)))
 
     # the long-row table: text only, three access styles, every row selection
     LONG_STYLES = ["R.read", "SF[]", "sfile.read"]
